@@ -6,9 +6,6 @@ A = 'phylib/io/array.py'
 declare_class('SpikeSelector', A)
 SEL_FIELDS = {'get_spikes_per_cluster': 'elem', 'spike_times': 'elem', 'chunks_kept': 'list[int]'}
 
-contract('<lib>', 'np.array', kind='assumed', params={'x': 'list[int]'}, result='arr[int]',
-    ensures=['len(result) == len(x)', 'all(result[k] == x[k] for k in range(len(x)))'], note='np.array of a list of ints: same values')
-
 contract(A, 'SpikeSelector.__init__', props=['C17'],
     params={'get_spikes_per_cluster': 'elem', 'spike_times': 'elem', 'chunk_bounds': 'list[int]', 'n_chunks_kept': 'int'},
     fields=SEL_FIELDS, modifies=['self.get_spikes_per_cluster', 'self.spike_times', 'self.chunks_kept'],
@@ -38,3 +35,38 @@ contract(A, '_times_in_chunks', props=['C17'],
     # from the statement: a spike belongs to "the kept time chunks": selected exactly when its time lies in some kept half-open interval
     ensures=[('one-flag-per-time', 'len(result) == len(times)'),
              ('selected-iff-in-some-kept-chunk', 'all(iff(result[k], any(chunks_kept[2 * j] <= times[k] and times[k] < chunks_kept[2 * j + 1] for j in range(len(chunks_kept) // 2))) for k in range(len(times)))')])
+
+# ---- SpikeSelector.__call__: "returns a strictly increasing array of spike ids that all belong to the requested clusters, to the kept time
+#      chunks when chunk restriction is requested, and to the optional spike subset" -----------------------------------------------------------
+from pyvc.contract import declare_ufunc
+from . import c07  # noqa: the proved contract of _flatten_per_cluster
+declare_ufunc('spike_of', ['int', 'int'], 'bool')     # spike_of(cluster, spike): what the callback get_spikes_per_cluster(cluster) lists
+contract('<lib>', 'np.random.choice', kind='assumed', params={'a': 'arr[int]', 'size': 'int'}, kwargs='kwargs', cases=[{'kwargs': 'rec[replace:bool]'}], result='arr[int]',
+    requires=['not kwargs.replace', '0 <= size and size <= len(a)'],
+    ensures=['len(result) == size', 'all(any(a[j] == result[i] for j in range(len(a))) for i in range(len(result)))'],
+    note='a sample without replacement: size elements of a (which ones is not specified)')
+SEL2 = {'get_spikes_per_cluster': 'elem', 'spike_times': 'arr[int]', 'chunks_kept': 'arr[int]'}
+_IN_CHUNK = lambda t: 'any(self.chunks_kept[2 * cj] <= %s and %s < self.chunks_kept[2 * cj + 1] for cj in range(len(self.chunks_kept) // 2))' % (t, t)
+_ELIG = lambda c, x: ('(spike_of(%s, %s) and implies(subset_chunks, %s) and implies(subset_spikes is not None, any(subset_spikes[q] == %s for q in range(len(subset_spikes)))))'
+                      % (c, x, _IN_CHUNK('self.spike_times[%s]' % x), x))
+contract(A, 'SpikeSelector.__call__', props=['C17'], fields=SEL2,
+    params={'n_spk_clu': 'opt[int]', 'cluster_ids': 'arr[int]', 'subset_chunks': 'bool', 'subset_spikes': 'opt[arr[int]]'}, defaults={'subset_chunks': 'False', 'subset_spikes': 'None'},
+    result='arr[int]', locals={'selection': 'assoc[int]'},
+    requires=[('requested-clusters-distinct', 'all(cluster_ids[a] != cluster_ids[b] for a in range(len(cluster_ids)) for b in range(a + 1, len(cluster_ids)))'),
+              ('pairs', 'len(self.chunks_kept) % 2 == 0'),
+              ('kept-bounds-non-decreasing', 'all(self.chunks_kept[i] <= self.chunks_kept[j] for i in range(len(self.chunks_kept)) for j in range(i + 1, len(self.chunks_kept)))'),
+              ('kept-chunks-non-empty', 'all(self.chunks_kept[2 * j] < self.chunks_kept[2 * j + 1] for j in range(len(self.chunks_kept) // 2))')],
+    on_call={'returns': 'arr[int]', 'bind': {},
+             'assume': [('the-callback-lists-spike-indices-of-the-cluster-it-is-asked-for',
+                         'all(0 <= call_ret[j] and call_ret[j] < len(self.spike_times) and spike_of(call_args[0], call_ret[j]) for j in range(len(call_ret)))')],
+             'updates': {}},
+    loops={0: {'idx': 'c', 'seq': 'CL', 'invariant': [
+        ('one-group-per-cluster-done', '0 <= c and c <= len(CL) and len(dkeys(selection)) == c and len(dvals(selection)) == c and all(dkeys(selection)[i] == CL[i] for i in range(c))'),
+        ('groups-hold-eligible-spikes-of-their-cluster', 'all(all(%s for j in range(len(dvals(selection)[i]))) for i in range(c))' % _ELIG('CL[i]', 'dvals(selection)[i][j]'))]}},
+    cuts=[('t = self.spike_times[spike_ids]', 'callback-spikes', 'all(0 <= spike_ids[j] and spike_ids[j] < len(self.spike_times) and spike_of(cluster, spike_ids[j]) for j in range(len(spike_ids)))'),
+          ('spike_ids = spike_ids[_times_in_chunks', 'kept-spikes-lie-in-kept-chunks', 'all(0 <= spike_ids[j] and spike_ids[j] < len(self.spike_times) and spike_of(cluster, spike_ids[j]) and %s for j in range(len(spike_ids)))' % _IN_CHUNK('self.spike_times[spike_ids[j]]')),
+          ('spike_ids = np.intersect1d', 'kept-spikes-are-in-the-subset', 'all(0 <= spike_ids[j] and spike_ids[j] < len(self.spike_times) and %s for j in range(len(spike_ids)))' % _ELIG('cluster', 'spike_ids[j]')),
+          ('spike_ids = np.random.choice', 'sampled-spikes-are-eligible', 'all(0 <= spike_ids[j] and spike_ids[j] < len(self.spike_times) and %s for j in range(len(spike_ids)))' % _ELIG('cluster', 'spike_ids[j]')),
+          ('before:selection[cluster] = spike_ids', 'group-to-store-is-eligible', 'all(%s for j in range(len(spike_ids)))' % _ELIG('cluster', 'spike_ids[j]'))],
+    ensures=[('strictly-increasing', 'all(result[a] < result[b] for a in range(len(result)) for b in range(a + 1, len(result)))'),
+             ('every-selected-spike-is-eligible-for-a-requested-cluster', 'all(any(%s for i in range(len(cluster_ids))) for k in range(len(result)))' % _ELIG('cluster_ids[i]', 'result[k]'))])
